@@ -6,5 +6,5 @@ CONSTANTS
   MaxHeight = 1
   MaxRound = 1
 INVARIANTS TypeOK NoHonestEquivocation VoteproofAgreement ChainAgreement SavedOnlyAgreed ChainLinked OneProposalPerPoint
-PROPERTIES LastMonotone
+PROPERTIES LastMonotone BoxLastMonotone
 CHECK_DEADLOCK FALSE
